@@ -279,3 +279,16 @@ package net
 //@ func Spec_OkPfx(p *Prefix) bool { return p != nil && spec_okPfx(*p) }
 //@ func Spec_SameFamily(p *Prefix, q *Prefix) bool { return p.addr.isLegacy == q.addr.isLegacy }
 //@ end
+
+// Property C25: the cache locks are innermost (nothing is called with them held).
+//@ locklevel ipCache.cacheMu 97
+//@ locklevel pfxCache.cacheMu 97
+//@ contract (*ipCache).get, (*pfxCache).get
+//@   props C25
+//@   nosafety
+//@   acquires 97
+//@   locks C25
+//@ contract IP.Dedup, Prefix.Dedup
+//@   props C25
+//@   acquires 97
+//@   locks C25
